@@ -110,6 +110,9 @@ pub mod path;
 #[cfg(test)]
 pub mod tests;
 
+#[cfg(hipstr_verif)]
+pub mod verif;
+
 pub use backend::*;
 
 /// Thread-safe shared byte sequence.
